@@ -56,6 +56,35 @@ func helperAssertEqual[T any](helper TypeHelper[T], t TestingT, expected, actual
 	helper.AssertEqual(t, expected, actual, failInfo)
 }
 
+// reportingT wraps TestingT and remembers whether any failure was reported through it.
+type reportingT struct {
+	TestingT
+	reported bool
+}
+
+func (r *reportingT) Errorf(format string, args ...any) {
+	r.reported = true
+	r.TestingT.Errorf(format, args...)
+}
+
+func (r *reportingT) FailNow() {
+	r.reported = true
+	r.TestingT.FailNow()
+}
+
+// assertError calls f and guarantees that unmet f is reported as test failure even if f itself reports nothing
+// (e.g. ErrorMatch with valid pattern which does not match error).
+func assertError(t TestingT, f AssertErrorFunc, err error, failInfo string) bool {
+	r := &reportingT{TestingT: t}
+	if f(r, err, failInfo) {
+		return true
+	}
+	if !r.reported {
+		assert.Fail(t, fmt.Sprintf("Unexpected error: %v", err), failInfo)
+	}
+	return false
+}
+
 func castToFunc[T, I any](value T) func(*T) I {
 	if _, ok := any(value).(I); ok {
 		return func(t *T) I {
